@@ -223,7 +223,9 @@ def _bad_tokenizer(M):
 
 
 for _M in S.SET_MEASURES:
-    cases = [_mk(_M, op, a, b) for op in ('>=', '>', '=') for a in (False, True) for b in (False, True)]
+    # the operator is only passed through: all output-attribute combinations for '>=', one for '>' and '='
+    cases = [_mk(_M, '>=', a, b) for a in (False, True) for b in (False, True)]
+    cases += [_mk(_M, '>', True, True), _mk(_M, '=', False, False)]
     cases += [_mk(_M, '<=', True, True),
               _bad_table(_M, 'ltable'), _bad_table(_M, 'rtable'), _bad_tokenizer(_M)]
     register(fn_name(_M), cases, props=('C01', 'C02', 'C08', 'C10', 'C11', 'C12', 'C15'))
